@@ -205,15 +205,12 @@ func runC43(c *an.Ctx) {
 				ok, why = false, "section is not height / BloomBitsBlocks"
 			}
 			// guarded by (height+1) % BloomBitsBlocks == 0
-			g := &an.Guard{Name: "(height+1)%N==0", FailValue: an.AFalse, MatchValue: func(v ssa.Value) bool {
-				b, isBin := v.(*ssa.BinOp)
-				if !isBin || b.Op != token.EQL {
-					return false
-				}
-				r, isR := b.X.(*ssa.BinOp)
+			// (height+1) % N == 0 in either polarity: the guard fails when the remainder differs from 0
+			gs := relGuards("(height+1)%N==0", token.NEQ, func(x ssa.Value) bool {
+				r, isR := x.(*ssa.BinOp)
 				return isR && r.Op == token.REM
-			}}
-			v := an.Guarded(c.P, sbd, []*an.Guard{g}, func(in ssa.Instruction) bool { return in == ssa.Instruction(calls[0]) }, false)
+			}, isConstVal("0"))
+			v := an.Guarded(c.P, sbd, gs, func(in ssa.Instruction) bool { return in == ssa.Instruction(calls[0]) }, false)
 			if !v.Holds || v.GuardSites != 1 {
 				ok, why = false, "the index is not built exactly at the last height of a section"
 			}
@@ -290,8 +287,12 @@ func logsAccumulator(v ssa.Value, ht *types.Func) (bool, string) {
 			if !isIf {
 				return false, "the append is not directly under the nil test of the receipt"
 			}
-			cond, isB2 := iff.Cond.(*ssa.BinOp)
-			if !isB2 || cond.Op != token.NEQ || cond.X != ssa.Value(e) {
+			// receipt != nil in either spelling, and the append on its non-nil side
+			m, nonNilWhenTrue := relMatch(iff.Cond, token.NEQ, func(x ssa.Value) bool { return x == ssa.Value(e) }, func(y ssa.Value) bool {
+				k, isK := y.(*ssa.Const)
+				return isK && k.Value == nil
+			})
+			if !m || nonNilWhenTrue && b.Preds[0].Succs[0] != b || !nonNilWhenTrue && b.Preds[0].Succs[1] != b {
 				return false, "the append is guarded by something other than receipt != nil"
 			}
 			appends++
